@@ -6,15 +6,6 @@ From RW Require Import Base.Bytes Base.BytesFacts Fmt.Codec Fmt.Frame Wal.Model 
 From Coq Require Import ZifyN ZifyNat ZifyBool.
 Open Scope N_scope.
 
-Lemma seg_create_some si e sw e' : seg_create si e = (Some sw, e') ->
-  sw = new_wseg si /\ lookup (name_of si) (dk_files (e_disk e)) = None.
-Proof.
-  unfold seg_create. destruct (si_base si =? 0); [intros E; inversion E|].
-  destruct (lookup _ _).
-  - destruct (io _ e) as [ok e1]. intros E; inversion E.
-  - destruct (io _ e) as [ok e1]. destruct ok; intros E; inversion E; auto.
-Qed.
-
 Lemma io_files_commit ps e ok e1 : io (ACommit ps) e = (ok, e1) -> dk_files (e_disk e1) = dk_files (e_disk e).
 Proof.
   destruct (io_cases (ACommit ps) e) as [(e' & E & D & _)|(_ & e' & E & D & _)]; rewrite E; intros K; inversion K; subst; rewrite D; reflexivity.
